@@ -1576,17 +1576,16 @@ fn cast_num(
         (false, true) => {
             // int to float
 
-            // first we have to convert the int to an int that can converted to float
-            let int_to = match cast_to.bit_width() {
-                32 => types::I32,
-                64 => types::I64,
-                _ => unreachable!(),
+            // first we have to convert the int to an int that can converted to float.
+            // cranelift can convert both i32 and i64 to either float type,
+            // so the int keeps its full width unless it is smaller than 32 bits or larger than 64
+            let int_to = match cast_from.bit_width() {
+                0..=32 => types::I32,
+                _ => types::I64,
             };
 
-            let first_cast = match cast_from.bit_width().cmp(&cast_to.bit_width()) {
-                std::cmp::Ordering::Less if cast_from.signed && cast_to.signed => {
-                    builder.ins().sextend(int_to, val)
-                }
+            let first_cast = match cast_from.bit_width().cmp(&(int_to.bits() as u8)) {
+                std::cmp::Ordering::Less if cast_from.signed => builder.ins().sextend(int_to, val),
                 std::cmp::Ordering::Less => builder.ins().uextend(int_to, val),
                 std::cmp::Ordering::Equal => val,
                 std::cmp::Ordering::Greater => builder.ins().ireduce(int_to, val),
